@@ -24,7 +24,8 @@ ASSUMPTIONS = [
     "round trip through the reference decoders)",
     "gf_split reference follows the label grammar in parse_label's docstring; labels are "
     "drawn from LABEL(-GF)?(=n)?(-n)? only",
-    "disco_reordered is not exercised (semantics undocumented)",
+    "disco_reordered ('output CF order with terminal indices'): tokens in the order of the "
+    "tree part of the line, numbered 1..n, word = '<index>-<word of that index>'",
     "damage verdicts only for bracket files (the property's last sentence)",
 ]
 
@@ -123,6 +124,8 @@ def gen_file(rng, tier, i, mode):
             kw["gf"] = True
         else:
             decorate(tb, rng, sep)
+    if fmt == "discobrackets" and mode == "clean" and rng.random() < 0.3:
+        opts["disco_reordered"] = True
     gz = rng.random() < 0.25 and fmt != "tigerxml"
     ext = {"export": ".export", "tigerxml": ".xml", "brackets": ".mrg",
            "discobrackets": ".dbr"}[fmt]
@@ -182,7 +185,8 @@ def optsig(opts, category=None):
     if category == "sentence-id":
         rel = ("continuous", "brackets_firstid")
     else:
-        rel = ("gf_split", "gf_separator", "replace_parens", "brackets_emptypos")
+        rel = ("gf_split", "gf_separator", "replace_parens", "brackets_emptypos",
+               "disco_reordered")
     names = sorted(k for k in opts if k in rel)
     return "+".join(names) if names else "default"
 
